@@ -6,6 +6,12 @@ ALL = ["C%02d" % i for i in range(1, 21)]
 
 # id -> (category, technique, level text, level note, design ref, engine)
 CHECKS = {
+ "C02": ("model_checking", "tableau extraction from the running code by impulse probing (unit-vector environment answers at every stage call) + order conditions over ALL rooted trees up to p; model bound to code by predicting real nonlinear steps",
+         "The coefficients (A,b,c) the solvers really apply are read off the arguments of successive RHS calls; the order condition of every rooted tree of order <= p (8/4/17/200/17 conditions) is evaluated on them, Radau's stability function is compared with the (2,3) Pade approximant and with real one-step runs, the real estimator is exercised on every tree of order <= q+1, and the extracted model must predict real steps on 6 nonlinear problems (trace validation); local-error ladders and the step-count law tol^(-1/q) corroborate end to end.",
+         "tolerance 1e-12*scale on residuals (a coefficient perturbed below that is not an order violation); 'all smooth right-hand sides' is covered through the complete finite set of rooted trees, the asymptotic statements through the stated finite ladders", "DESIGN.md §3 C02", "E2"),
+ "C07": ("model_checking", "dense weights b_j(theta) extracted from the real interpolant by impulse probing + dense order conditions over ALL rooted trees up to q at 9 theta nodes; observed interior-order ladders",
+         "For RK4/RK23/DOPRI5/DOP853/Radau the interpolant is linear in the stage answers, so evaluating it after unit-impulse answers yields b_j(theta); sum_j b_j(theta) Phi_j(t) = theta^rho/gamma is checked for every tree of order <= q (3,3,4,7,3) and both step signs; single-step interior error ladders and BDF whole-run comparisons corroborate.",
+         "tolerance 1e-12*scale; BDF has no tableau and is judged by interior vs endpoint error", "DESIGN.md §3 C07", "E2"),
  "C03": ("model_checking", "exhaustive configuration lattice on the real solve_ivp with an interval/status trace monitor",
          "The full product method x direction x x0 x span (1e-12..1e9, inf) x first_step x max_step x t_eval x dense x events x problem is run on the real code; a monitor checks ordering, range of every interface call, status <=> coverage and shapes on every execution. Right level: the landing logic fails only on numeric coincidences (first_step >= span, max_step dividing the span, sub-1e-12 spans) which the lattice places by construction.",
          "trusts the instrumented IVP to see every ode/events/jac call; 'to rounding' = 8 ulp (1+n/64); validity predicate of DESIGN §2.4", "DESIGN.md §3 C03", "E1"),
@@ -77,6 +83,7 @@ def main():
         "engines": [
             {"name": "E1", "path": "harness/src/util.rs", "serves_properties": [], "kind_free_text": "exhaustive mixed-radix lattice enumerator over configurations of the real API with trace monitors"},
             {"name": "E2", "path": "harness/src/env.rs", "serves_properties": [], "kind_free_text": "deviation-bounded exploration of environment answers (RHS faults, SolOut flags, unit impulses) at every interface-call index"},
+            {"name": "E4", "path": "harness/src/tableau.rs", "serves_properties": ["C02", "C07"], "kind_free_text": "rooted-tree enumeration and (dense) order conditions evaluated on the tableau extracted from the running code"},
             {"name": "E3", "path": "harness/src/c17.rs", "serves_properties": ["C17"], "kind_free_text": "stateright explicit-state BFS/DFS over the real ivp::Matrix with a dense reference model"},
         ],
         "checks": checks,
